@@ -977,6 +977,7 @@ func checkC04(w *World, r *Report) {
 	r.Rule("C04.everyshare", "P5", "in the loop over Destinations.Shares every iteration path subtracts that share's calculatePercentage(share.Share, inflow) from the remainder, whatever the destination type", 1)
 	r.Rule("C04.conserve", "P5,P6", "= C03.conserve: the primary destination receives exactly what is left after every named share and the burn share were taken off - on every path, once, and a collected inflow is always distributed", 6)
 	r.Rule("C04.fraction", "P6", "the fraction used for a destination is that destination's own Share (resp. the sub-distributor's BurnShare), applied to the sub-distributor's total inflow, and credited to that same destination", 4)
+	r.Rule("C04.inflow", "P6", "= C03.inflow: the inflow of which every destination receives its fraction is the main account's balance minus the sum of the remains of the full, current state list (an inflow computed from a stale sum or balance under- or overstates what every destination of that sub-distributor gets)", 3)
 	r.Rule("C04.order", "P4,P6", "= C03.order: the outcome must not depend on the order in which sources are listed", 1)
 	if !ro.checkFloors(r) {
 		return
@@ -1309,6 +1310,7 @@ func checkC04(w *World, r *Report) {
 		}
 	}
 	orderRule(w, r, "C04.order", a)
+	shareRule(w, r, checkC03, "C03.inflow", "C04.inflow", nil)
 	conserveRule(w, r, "C04.conserve", a)
 }
 
@@ -1329,6 +1331,7 @@ func checkC14(w *World, r *Report) {
 	r.Rule("C14.sweep", "P5,P6,P7", "in each source sweep, evaluated under 'transfer failed' / 'transfer succeeded' (origins restricted to live edges): nothing returned after a failed transfer depends on the coins that were to be moved, everything returned after a successful one contains them; the sweep goes to the main account; leftovers that were cleared from the source's own state reach the returned inflow on every path", 7)
 	r.Rule("C14.retry", "P5", "the end-of-block pay-out over the stored states is on every path of the distributor's block routine (no early return when nothing arrived): leftovers of failed transfers are retried in every block", 2)
 	r.Rule("C14.wrapper", "P4,P6", "every bank transfer or burn in the distributor's block tree sits in a keeper wrapper that passes its amount and account parameters to the bank unchanged and returns the bank's result: callers reason about the amount they passed", 4)
+	r.Rule("C14.inflow", "P6", "= C03.inflow: leftovers of failed transfers stay in the main account and in the states; the main inflow subtracts the current sum of all of them from the current balance, so that they are neither distributed a second time nor dropped", 3)
 	r.Rule("C14.persist", "P5", "= C03.persist", 3)
 	r.Rule("C14.noerrorexit", "P5", "= C10.swallow: bank errors in the distributor's block tree are logged and never escalate to a panic or an error return", 5)
 	if !ro.checkFloors(r) {
@@ -1438,6 +1441,7 @@ func checkC14(w *World, r *Report) {
 	}
 	wrapperRule(w, r, "C14.wrapper")
 	persistRule(w, r, "C14.persist", a)
+	shareRule(w, r, checkC03, "C03.inflow", "C14.inflow", nil)
 	// ---------- C14.noerrorexit ----------
 	dreach := cg.Reach(ro.BLK["cfedistributor"])
 	for _, s := range cg.SitesIn(dreach) {
